@@ -152,10 +152,6 @@ func ReadFrom(r io.Reader) (*Index, error) {
 	if err != nil {
 		return nil, err
 	}
-	if n == 0 {
-		return nil, nil
-	}
-
 	err = readTabixHeader(r, &idx)
 	if err != nil {
 		return nil, err
@@ -211,6 +207,13 @@ func readTabixHeader(r io.Reader, idx *Index) error {
 	err = binary.Read(r, binary.LittleEndian, &n)
 	if err != nil {
 		return fmt.Errorf("tabix: failed to read name lengths: %w", err)
+	}
+	if n < 0 {
+		return fmt.Errorf("tabix: invalid name length: %d", n)
+	}
+	if n == 0 {
+		// No names.
+		return nil
 	}
 	nameBytes := make([]byte, n)
 	_, err = io.ReadFull(r, nameBytes)
